@@ -1432,6 +1432,8 @@ def _header_exprs_of(st):
 
 def _inline_temps_in_function(fnode):
     n_done = 0
+    if not any(isinstance(x, ast.Assign) and len(x.targets) == 1 and isinstance(x.targets[0], ast.Name) for x in ast.walk(fnode)):
+        return 0
     while True:
         loads, stores, other = {}, {}, set()
         for x in ast.walk(fnode):
@@ -1472,31 +1474,34 @@ def _inline_temps_in_function(fnode):
                     if before is None or not (_effect_free(st.value) or all(_effect_free(b_) for b_ in before)):
                         continue
                     cands.setdefault(x, []).append((lst, i, st, nxt, use, path))
-        todo = None
+        todos = []
         for x, cs in cands.items():
             # every store of x is such a temporary and every load of x is the use right after one of them
             if len(cs) == len(stores.get(x, ())) == len(loads.get(x, ())) and {id(c[4]) for c in cs} == {id(u) for u in loads[x]}:
-                todo = cs[0]
-                break
-        if todo is None:
+                todos += cs
+        if not todos:
             return n_done
-        lst, i, st, nxt, use, path = todo
-        if not path:
-            for f2, v2 in ast.iter_fields(nxt):
-                if v2 is use:
-                    setattr(nxt, f2, st.value)
-                elif isinstance(v2, list):
-                    for w in v2:
-                        if isinstance(w, ast.withitem) and w.context_expr is use:
-                            w.context_expr = st.value
-        else:
-            parent, f2, idx = path[-1]
-            if idx is None:
-                setattr(parent, f2, st.value)
+        # all of them at once (they concern different names; the rewrites move expression objects, which stay valid for each other)
+        for lst, i, st, nxt, use, path in todos:
+            if not path:
+                for f2, v2 in ast.iter_fields(nxt):
+                    if v2 is use:
+                        setattr(nxt, f2, st.value)
+                    elif isinstance(v2, list):
+                        for w in v2:
+                            if isinstance(w, ast.withitem) and w.context_expr is use:
+                                w.context_expr = st.value
             else:
-                getattr(parent, f2)[idx] = st.value
-        del lst[i]
-        n_done += 1
+                parent, f2, idx = path[-1]
+                if idx is None:
+                    setattr(parent, f2, st.value)
+                else:
+                    getattr(parent, f2)[idx] = st.value
+            for k_, y in enumerate(lst):
+                if y is st:
+                    del lst[k_]
+                    break
+            n_done += 1
 
 
 def inline_adjacent_temps(repo, rebuild):
@@ -1768,6 +1773,13 @@ def _alias_path(e):
 
 def _inline_attr_aliases_in_function(fnode):
     n_done = 0
+    # not in coroutines: between the binding and a later use another coroutine may run (at an await) and re-bind the attribute or the
+    # slot, so the alias (old object) and the re-evaluated path (new object) are different things - rules about staleness depend on it
+    nodes_ = list(ast.walk(fnode))
+    if isinstance(fnode, ast.AsyncFunctionDef) or any(isinstance(x, (ast.Await, ast.AsyncFor, ast.AsyncWith, ast.Yield, ast.YieldFrom)) for x in nodes_):
+        return 0
+    if not any(isinstance(x, ast.Assign) and len(x.targets) == 1 and isinstance(x.targets[0], ast.Name) and isinstance(x.value, (ast.Attribute, ast.Subscript)) for x in nodes_):
+        return 0
     for _round in range(12):
         stores, loads, params, other = {}, {}, set(), set()
         attr_stores = set()
@@ -1823,6 +1835,23 @@ def _inline_attr_aliases_in_function(fnode):
                 continue
             holder = getattr(st, "_parent", None)
             if holder is None:
+                continue
+
+            # evaluating the path can raise (KeyError, IndexError, AttributeError): it may only move to places that are covered by
+            # exactly the same handlers - the binding and every use share their innermost enclosing try part (or have none)
+            def try_region(n_):
+                child, p_ = n_, getattr(n_, "_parent", None)
+                while p_ is not None and p_ is not fnode:
+                    if isinstance(p_, ast.Try):
+                        for part in ("body", "orelse", "finalbody"):
+                            if any(child is y for y in getattr(p_, part)):
+                                return (id(p_), part)
+                    if isinstance(p_, ast.ExceptHandler):
+                        return (id(p_), "handler")
+                    child, p_ = p_, getattr(p_, "_parent", None)
+                return None
+            reg = try_region(st)
+            if any(try_region(u) != reg for u in loads[x]):
                 continue
             todo = (st, x, holder)
             break
